@@ -270,6 +270,48 @@ def h_pin_crash(ctx, n_ops):
     return [(l.replace("identities record", "pinned identity"), o) for l, o in obs if "identit" in l]
 
 
+def _iff(a, b):
+    import z3
+    if isinstance(a, bool) and isinstance(b, bool):
+        return a == b
+    if isinstance(a, bool):
+        return b if a else z3.Not(b)
+    if isinstance(b, bool):
+        return a if b else z3.Not(a)
+    return a == b
+
+
+def h_trust_decision(ctx):
+    """the trust decision as a function of what is pinned: two contacts with unconstrained ids (different) and unconstrained 32-byte keys are
+    pinned (the account's own key is in the same table); an unconstrained key presented for the first contact is trusted exactly if it IS that
+    contact's pinned key -- whoever else the key belongs to; a contact nobody pinned yet is trusted on first use.  Real store classes on the
+    symbolic SQL engine, replayed on sqlite3"""
+    from checks import c13
+    b = c13.Boundary()
+    env = c13.SymEnv(ctx, b)
+    try:
+        store = env.open()
+        r1, r2, r3 = ctx.int("contact1", 0, 2 ** 40), ctx.int("contact2", 0, 2 ** 40), ctx.int("contact3", 0, 2 ** 40)
+        k1, k2, k = H.symbytes(ctx, "KEY1", 33), H.symbytes(ctx, "KEY2", 33), H.symbytes(ctx, "PRESENTED", 33)
+        if H.sym(ctx):
+            ctx.assume(r1 != r2)
+            ctx.assume(r3 != r1)
+            ctx.assume(r3 != r2)
+        elif len({r1, r2, r3}) != 3:
+            raise core.Infeasible()
+        store.saveIdentity(r1, c13.Rec(serialized=k1))
+        store.saveIdentity(r2, c13.Rec(serialized=k2))
+        if ctx.flag("restart_before_the_decision"):
+            env.die()
+            store = env.open()
+        got = store.isTrustedIdentity(r1, c13.Rec(serialized=k))
+        obs = [("a key presented for a pinned contact is trusted iff it is that contact's pinned key", _iff(core.eq(got, True), H.rope_eq(k, k1)))]
+        obs.append(("a contact without a pin is trusted on first use", core.eq(store.isTrustedIdentity(r3, c13.Rec(serialized=k)), True)))
+        return obs
+    finally:
+        env.restore()
+
+
 def cases(tier):
     extra = [dict(name="pin-crash[symbolic store,ops<=%d]" % (2 if tier == "quick" else 3), fn=h_pin_crash, args=(2 if tier == "quick" else 3,), max_paths=200000, timeout_s=900, weight=30, keep_samples=8)]
     n = 3 if tier == "quick" else 5
@@ -280,6 +322,7 @@ def cases(tier):
     cs.append(dict(name="step[getKeysFor]", fn=h_step_getkeys))
     cs.append(dict(name="step[handleEncMessage]", fn=h_step_receive))
     cs.append(dict(name="step[identity-change notification]", fn=h_step_identity_notification))
+    cs.append(dict(name="trust-decision[symbolic contacts and keys]", fn=h_trust_decision, timeout_s=300, keep_samples=12))
     return cs + extra
 
 
